@@ -54,6 +54,7 @@ def jobs(tier):
     for i in range(0, len(js), 6):
         grouped.append({"name": f"lp-group-{i // 6}", "kind": "group", "jobs": js[i:i + 6]})
     grouped += [{"name": f"conic-{n}", "kind": "conic", "model": n} for n in CONIC]
+    grouped.append({"name": "frontend-dual-after-modification", "kind": "frontend"})
     return grouped
 
 
@@ -503,6 +504,59 @@ def conic_dual(name):
     return obs
 
 
+def frontend_dual_after_modification():
+    """The user-level route: an ro model is formulated (or solved) once, then modified, then its dual is requested
+    BEFORE any new primal formulation.  The returned program must be the dual of the model as it now stands --
+    judged against the primal of an identical model built from scratch."""
+    out = []
+    for setkind in ("box", "ball"):
+        for first in ("do_math", "dual", "solve"):
+            def setup(c, setkind=setkind, first=first):
+                cost = sym_array(c, (2,), "c")
+                e1, e2, r = c.fresh_real("e1"), c.fresh_real("e2"), c.fresh_real("r")
+                c.assume(r > 0)
+
+                def declare(m, x, z, upto):
+                    m.min(cost @ x)
+                    zs = [z <= r, z >= -r] if setkind == "box" else [rsome.norm(z, 2) <= r]
+                    m.st(((x * z).sum() + x[0] <= e1).forall(*zs))
+                    if upto >= 2:
+                        m.st(x[0] - 2 * x[1] <= e2, x[1] >= 0)
+                def history():
+                    m = ro.Model()
+                    x, z = m.dvar(2), m.rvar(2)
+                    declare(m, x, z, 1)
+                    if first == "do_math":
+                        m.do_math()
+                    elif first == "dual":
+                        m.do_math(primal=False)
+                    else:
+                        m.solve(_Oracle, display=False)
+                    m.st(x[0] - 2 * x[1] <= e2, x[1] >= 0)
+                    return m
+                nv = history().do_math().linear.shape[1]          # a scratch copy, only to learn the number of columns
+                return {"m": history(), "x": arr([c.fresh_real(f"x{j}_") for j in range(nv)]), "obj": True}
+
+            def call(ns):
+                R = ns["m"].do_math(primal=False)                 # the dual FIRST ...
+                P = ns["m"].do_math()                             # ... judged against the model's own current primal
+                ns["before"] = D.snapshot_prog(P)
+                ns["P"] = P
+                if P.linear.shape[1] != len(ns["x"]):
+                    raise AssertionError("harness: column count changed between two identical histories")
+                return R
+            obs, _ = check_function("rsome.ro:Model.do_math(primal=False)", setup, call, conic_clauses(),
+                                    mode="D", label=f"{setkind}: {first}, then two more constraints, then the dual first", bounded=True, max_paths=600)
+            out += obs
+    return out
+
+
+class _Oracle:
+    @staticmethod
+    def solve(formula, display=True, log=False, params={}):
+        return lp.Solution("oracle", 0.0, np.zeros(formula.linear.shape[1]), 0, 0.0)
+
+
 def has_sym_ctx(c):
     from ..sym import PathCtx
     return isinstance(c, PathCtx)
@@ -528,4 +582,6 @@ def run_job(job):
         return lp_dual(job["nv"], job["m"], job["kinds"])
     if job["kind"] == "conic":
         return conic_dual(job["model"])
+    if job["kind"] == "frontend":
+        return frontend_dual_after_modification()
     raise ValueError(job["kind"])
